@@ -33,6 +33,13 @@ fn one_config<V: VringT<dmn::Mem> + Clone + Send + Sync + 'static>(cfg: &Cfg, nq
         setup_ok &= fe.set_vring_kick(q, &kicks[q]).is_ok();
         setup_ok &= fe.set_vring_enable(q, true).is_ok();
     }
+    // enabling an enabled ring again (as a frontend does after a reconnect or a feature renegotiation)
+    // must not change where its kicks go
+    for q in 0..nq {
+        if q % 2 == 0 || nq < 3 {
+            setup_ok &= fe.set_vring_enable(q, true).is_ok();
+        }
+    }
     if !setup_ok {
         report::inconclusive("ring setup failed");
         return;
